@@ -132,8 +132,20 @@ pub fn main() {
         }
         load_case(&v, &mut bus, &mut state);
         let steps = v.get("steps").and_then(|s| s.as_u64()).unwrap_or(1);
+        let split_every = v.get("split_every").and_then(|s| s.as_u64()).unwrap_or(0);
         let mut out_steps = Vec::new();
-        for _ in 0..steps {
+        for n in 0..steps {
+            if split_every > 0 && n > 0 && n % split_every == 0 {
+                // C07 split run: rebuild executor + state from ARCHITECTURAL registers only
+                let mut fresh = LlamaState::new();
+                for r in [RegName::BA, RegName::I, RegName::X, RegName::Y, RegName::U, RegName::S,
+                          RegName::F, RegName::PC] {
+                    fresh.set_reg(r, state.get_reg(r));
+                }
+                fresh.set_power_state(state.power_state());
+                state = fresh;
+                exec = LlamaExecutor::new();
+            }
             let o = one_step(&mut exec, &mut state, &mut bus);
             let stop = o.get("err").is_some() || o.get("panic").is_some();
             out_steps.push(o);
